@@ -437,6 +437,16 @@ class Interp(object):
                     yield r
                 return
             raise Unmodelled("next() over %s" % T.show(comp)[:80])
+        if k == "call" and t[1] == ("global", "len") and len(t[2]) == 1 and not t[3]:
+            # number of pieces of a split, or of characters of a known text
+            for v, tr in self._ev(t[2][0], trail):
+                if isinstance(v, list):
+                    yield len(v), tr
+                elif isinstance(v, AStr) and v.is_concrete():
+                    yield len(v.text()), tr
+                else:
+                    raise Unmodelled("len of %r" % (v,))
+            return
         raise Unmodelled("term %s" % T.show(t)[:80])
 
     def _first(self, table, test, var, default, i, trail, elt=None):
